@@ -16,7 +16,7 @@ impl SubCheck for BfsOrder {
         "bfs_order_and_shortest_witness"
     }
     fn cases(&self, tier: Tier) -> u32 {
-        tier.pick(6000, 150000)
+        tier.pick(20000, 300000)
     }
     fn strategy(&self, tier: Tier) -> BoxedStrategy<GCase> {
         let mut p = GraphParams::small();
